@@ -281,7 +281,8 @@ CONFIG["C08"] = {
     "level": "other", "proof": True, "rtc": True, "rtc_timeout": 3000,
     "explanation": "Proved (effect obligations decided on the AST of the real files, for every N and every history): each call that "
                    "draws from numpy's global generator inside a method of the grid / polytope / Voronoi classes is dominated in the "
-                   "same function by np.random.seed(<integer literal>), and every seed is an integer literal -- so the generator state "
+                   "same function by np.random.seed(<integer literal>), and every seed is an integer literal (code deferred in a lambda, a "
+                   "generator expression or a nested function is its own scope: the enclosing function's seed does not dominate it) -- so the generator state "
                    "at a draw never depends on earlier constructions or on the caller's generator state. Proved over an abstract graph "
                    "(symbolic node count): index permanence (Polytope._end_of_divison / _add_polytope_point and the history lemma, see "
                    "C18), cache coherence (Polytope._get_attributes_array_sorted_by_index under the class invariant `cached count == node "
